@@ -171,6 +171,9 @@ mod math;
 mod op;
 mod token;
 
+#[cfg(feature = "verif")]
+pub mod verif;
+
 /// Some generic coordinates for test composition
 #[cfg(test)]
 mod test_data {
